@@ -118,6 +118,14 @@ def validate(w, fam, obs, label):
     return set(i for i, _ in r["rejects"]), r["generated"], r["distinct"], dict(r["rejects"])
 
 
+def attach_idmaps(obs, lines):
+    """RecvTrace maps owners by name: rows carry the id maps of their scenario (empty unless it names ids)."""
+    byid = {ln["id"]: ln for ln in lines}
+    for o in obs:
+        ln = byid.get(o.get("id"), {})
+        o["umap"], o["gmap"] = ln.get("umap", []), ln.get("gmap", [])
+
+
 def run(w, fam, scen, label, recvs=("client", "daemon"), chunks=(0,), case_timeout=120, judge=()):
     """Replay every scenario on each kind of real receiver; returns observations."""
     lines = []
@@ -134,6 +142,7 @@ def run(w, fam, scen, label, recvs=("client", "daemon"), chunks=(0,), case_timeo
     obs = [normalise(o) for o in read_ndjson(of)]
     if len(obs) != len(lines):
         raise Broken("harness returned %d observations for %d scenarios" % (len(obs), len(lines)))
+    attach_idmaps(obs, lines)
     hb = [o for o in obs if str(o.get("err", "")).startswith("HARNESS")]
     if hb:
         raise Broken("harness error: " + hb[0]["err"])
@@ -153,6 +162,7 @@ def run_validate_confirm(w, fam, scen, label, v, counts, sigfn, recvs=("client",
         write_ndjson(sf2, again)
         w.run_harness("recv", sf2, of2)
         obs2 = [normalise(o) for o in read_ndjson(of2)]
+        attach_idmaps(obs2, again)
         rej2, _, _, where2 = validate(w, fam, obs2, label + "-confirm")
         vlib_unreproduced(v, rej, rej2, total=len(obs))
         exp = {}
